@@ -91,6 +91,28 @@ def probe(name, data=FLAGGED):
     return out
 
 
+_DIST = {}
+
+
+def _distinguishes(state):
+    """the distinguishing pickles are only used where this tree's own verdict / allowlist makes
+    them distinguishing (what the check flags and what the allowlist contains is not fixed by
+    the property)"""
+    if state not in _DIST:
+        from fickling.analysis import Severity, check_safety
+        from fickling.fickle import Pickled
+        import fickling.ml as ml
+
+        try:
+            if state == "check":
+                _DIST[state] = check_safety(Pickled.load(ONLY_CHECK_FLAGS)).severity > Severity.LIKELY_SAFE
+            else:
+                _DIST[state] = "date" not in ml.ML_ALLOWLIST.get("datetime", ())
+        except Exception:  # noqa: BLE001
+            _DIST[state] = False
+    return _DIST[state]
+
+
 class Boom(Exception):
     pass
 
@@ -148,6 +170,8 @@ def step(model, ctxs, st):
             # "precisely the protection that was in force": the binding must be the protection
             # the model names, not merely some protection
             other = ONLY_CHECK_FLAGS if state == "check" else ONLY_ML_REFUSES
+            if not _distinguishes(state):
+                continue
             got, detail = probe(n, other)
             if got != "refused":
                 what = (
